@@ -1500,6 +1500,11 @@ class DiskRefsContainer(RefsContainer):
                 continue
             if all or ref.startswith(LOCAL_TAG_PREFIX):
                 try:
+                    contents = self.read_loose_ref(ref)
+                    if contents is not None and contents.startswith(SYMREF):
+                        # Never pack a symbolic ref (git does not either): the
+                        # packed line would freeze it at its current target.
+                        continue
                     sha = self[ref]
                     if sha:
                         refs_to_pack[ref] = sha
